@@ -9,13 +9,16 @@
 
    Not here: the DiskWriter's own Filter (nil in the model); the order in which file contents
    complete — the model emits the notification of a regular file at the position of its
-   HandleChange call, [replay_delay] below shows that moving such a notification to any later
-   position (the real one is emitted when the content has arrived) does not change what the
-   replay rebuilds; the timing-dependent hard-link exception (the destination listing is an
-   input at this layer). *)
+   HandleChange call; [notify_order_independent] below shows that ANY order in which no
+   notification precedes a notification for one of its ancestors rebuilds the same view (the
+   real notification of a regular file is emitted by a goroutine started by its own
+   HandleChange call, hence after those of its ancestor directories; all others come in path
+   order); the timing-dependent hard-link exception (the destination listing is an input at
+   this layer). *)
 From Coq Require Import List NArith Bool Sorting.Sorted.
 From FS Require Import Sx Model.Path Model.Stat Model.Diff Model.AbsDest
-  Proofs.DiffP Proofs.AbsDestP Proofs.ReceiveP.
+  Proofs.DiffP Proofs.AbsDestP Proofs.ReceiveP Proofs.ReplayP Proofs.NotifyOrderP.
+From Coq Require Import Sorting.Permutation.
 Import ListNotations.
 Open Scope N_scope.
 
@@ -73,7 +76,26 @@ Theorem notify_digest : forall (H : bytes -> bytes) (hdr : stat -> bytes) d A B,
             dg = H (hdr st ++ (if wants_content st then de_bytes e else [])).
 Proof. exact notify_digest_proof. Qed.
 
+(* Order independence, general form: two lists of notifications that are permutations of each
+   other, without duplicate paths, both "ancestors first" (no notification is followed by one
+   for an ancestor of its path), rebuild the same view from any starting view. *)
+Theorem replay_order_independent : forall ns ns',
+  NoDup (map npath ns) -> ancestors_first ns -> Permutation ns ns' -> ancestors_first ns' ->
+  forall M p, alookup p (replay ns' M) = alookup p (replay ns M).
+Proof. exact ReplayP.replay_order_independent. Qed.
+
+(* ... hence the notifications of a transfer, received in ANY ancestors-first order — whatever
+   the completion order of the file contents — rebuild the view of the new destination. *)
+Theorem notify_order_independent : forall (H : bytes -> bytes) (hdr : stat -> bytes) d A B,
+  wf_listing (map fst A) -> wf_listing (map fst B) -> links_ok B -> identity_faithful d A B ->
+  let r := receive_abs H hdr Fresh d A B in
+  forall ns', Permutation (ds_notifs r) ns' -> ancestors_first ns' ->
+  forall p, alookup p (replay ns' (nview H hdr (dest_of A))) = alookup p (nview H hdr (ds_map r)).
+Proof. exact notify_order_independent_proof. Qed.
+
 Print Assumptions notify_replays_any.
+Print Assumptions replay_order_independent.
+Print Assumptions notify_order_independent.
 Print Assumptions notify_replays.
 Print Assumptions notify_exact.
 Print Assumptions notify_digest.
